@@ -25,7 +25,7 @@ def scIn2Step (ms : Mid) (seen : List Id) (sci : ScIn2) : VM (List Id) := do
 
 /-- the balance part of `validateV2Siacoins` (copied verbatim from the model) -/
 def v2ScBalance (t : Txn2) : VM Unit := do
-  let inputSum0 ← t.scIns.foldlM (fun s sci => addC s sci.parent.value) 0
+  let inputSum0 ← t.scIns.foldlM (fun (s : Cur) sci => if s + sci.parent.value < curLimit then pure (s + sci.parent.value) else reject "siacoin inputs overflow") 0
   let outputSum0 ← t.scOuts.foldlM (fun (s : Cur) o => if o.2.value = 0 then reject "siacoin output has zero value" else addC s o.2.value) 0
   let outputSum1 ← t.fcs.foldlM (fun s (_, fc, _) => do
     let a ← addC s fc.renter.value
@@ -34,8 +34,8 @@ def v2ScBalance (t : Txn2) : VM Unit := do
     addC b tax) outputSum0
   let (inputSum, outputSum2) ← t.ress.foldlM (fun ((i, o) : Cur × Cur) r => match r.res with
     | .renewal rn => do
-      let i1 ← addC i rn.renterRollover
-      let i2 ← addC i1 rn.hostRollover
+      let i1 ← if i + rn.renterRollover < curLimit then pure (i + rn.renterRollover) else reject "siacoin inputs overflow"
+      let i2 ← if i1 + rn.hostRollover < curLimit then pure (i1 + rn.hostRollover) else reject "siacoin inputs overflow"
       let a ← addC o rn.newContract.renter.value
       let b ← addC a rn.newContract.host.value
       let tax ← v2Tax rn.newContract
